@@ -52,8 +52,12 @@ def _kinds(lines, verdicts):
             if m.group(1) == "refill":
                 if ";b" in ln:
                     c["refill-after-connection-loss"] = c.get("refill-after-connection-loss", 0) + 1
-                if " dropped=0" not in v:
+                if " trimmed=0" not in v:
                     c["refill-with-trimmed-excess"] = c.get("refill-with-trimmed-excess", 0) + 1
+                if " reshards=0" not in v:
+                    c["refill-after-reshard"] = c.get("refill-after-reshard", 0) + 1
+                if " reqdrop=0" not in v:
+                    c["refill-dropping-requested-surplus"] = c.get("refill-dropping-requested-surplus", 0) + 1
             if " own=1 part=1" in v:
                 c["owner-shard-in-partial-pool"] = c.get("owner-shard-in-partial-pool", 0) + 1
             if m.group(1) == "tablet-replica" and _migration(ln.split("|")[0].split()[6]):
@@ -69,7 +73,8 @@ def _kinds(lines, verdicts):
 _FLOORS = {"ring-replica": 0.15, "tablet-replica": 0.03, "pool-probe": 0.04, "ring-no-usable-replica": 0.03,
            "tablet-unknown-token": 0.03, "tablet-no-usable-replica": 0.003, "not-token-aware": 0.02,
            "lwt-replica": 0.02, "owner-shard-in-partial-pool": 0.002, "tablet-replica-after-shard-migration": 0.002,
-           "refill": 0.01, "refill-after-connection-loss": 0.001, "refill-with-trimmed-excess": 0.0001}
+           "refill": 0.01, "refill-after-connection-loss": 0.001, "refill-with-trimmed-excess": 0.0001,
+           "refill-after-reshard": 0.0003, "refill-dropping-requested-surplus": 0.00008}
 
 
 def _post(lines, verdicts):
@@ -201,8 +206,10 @@ SPEC = {
              "R lines = the refiller tie: at the end of a cluster's life, per node, the history of pool connections completing "
              "their handshake (server-side shard, shard-aware port or not) and being cut by the mock (kill rounds between "
              "statements: one / some / all connections of a node, preceded by raw TCP connections that shift the mock's plain-port "
-             "round-robin so that replacements land on covered shards and become excess connections; then the pools are "
-             "re-established by probing), and the pool "
+             "round-robin so that replacements land on covered shards and become excess connections, or by a change of the node's "
+             "shard count (resharding: the replacement connections report the new count, the driver rebuilds the pool; with several "
+             "replacements under way towards a node that now has 1-2 shards the surplus of a requested connection is dropped); "
+             "then the pools are re-established by probing), and the pool "
              "that was finally established; the extracted refiller model run over that history must end with that pool. "
              "Tablet histories interleave payloads of the cluster's tables, include split / merge sequences and tablets listing a "
              "host twice; one in eight of the clusters with >= 3 nodes (~8 % of all) has a node without tokens. "
@@ -237,7 +244,10 @@ SPEC = {
         "cho_ok and shuf_ok (drawn indices in range, shuffles are permutations) are assumed; the driver re-checks pool "
         "well-formedness of its input with pool_wfb (C12_pool_wfb_sound)",
         "the refiller tie replays the connection events in the order the mock saw them and compares shards per slot only; the "
-        "dropped shard-aware surplus connection, the excess limit and a later resharding are not reached by it",
+        "excess limit (10 x shard count) is not reached by it",
+        "prop_obs_ok is handed the specification's token (C03 spec_token) only when it equals the token of the request "
+        "(otherwise the verdict is `diff token-differs-from-specification`); with that token it is route_prop for the "
+        "observation (C12_prop_obs_complete, C12_prop_obs_sound)",
     ],
 }
 
